@@ -35,4 +35,10 @@ def sc (c impl : List String) : Option Verdict := do
          nontrivial := ops.any (fun o => match o with | .setAutoconf _ => true | _ => false) && ops.length ≥ 2,
          note := if ok then "" else "sysctl glue: a boolean reads true iff the file is \"1\\n\" (error iff unreadable), enable writes \"1\" / disable \"0\" to the autoconf file only, forwarding reads the forwarding file" }
 
+/-- `scc readers reads | wrong`: concurrent readers of one shared `State`, each of its own
+    interface: no read may return another interface's value -/
+def scc (_c impl : List String) : Option Verdict :=
+  pure { model := "0", oracle := impl == ["0"], nontrivial := true,
+         note := if impl == ["0"] then "" else "a reader of the shared State saw a value that is not its own interface's (or an error): forwarding / autoconfiguration state read wrongly under concurrency" }
+
 end Driver.Sysctl
